@@ -27,6 +27,7 @@ import (
 	"github.com/lestrrat-go/jwx/v2/jwk"
 	"github.com/lestrrat-go/jwx/v2/jws"
 
+	"github.com/nuts-foundation/nuts-node/crypto"
 	"github.com/nuts-foundation/nuts-node/crypto/hash"
 )
 
@@ -34,6 +35,10 @@ import (
 func ParseTransaction(input []byte) (Transaction, error) {
 	message, err := jws.Parse(input)
 	if err != nil {
+		return nil, fmt.Errorf(unableToParseTransactionErrFmt, err)
+	}
+	// The reference of a transaction is the hash of the bytes it is received in: a signed transaction must have one encoding.
+	if err := crypto.CheckCompactJWS(input); err != nil {
 		return nil, fmt.Errorf(unableToParseTransactionErrFmt, err)
 	}
 	if len(message.Signatures()) == 0 {
